@@ -280,25 +280,26 @@ EvRule(C, ri, x, inv) ==
           IF s.ok THEN Res(TRUE, s.val, [x EXCEPT !.pos = s.end]) ELSE Res(FALSE, Nil, x)
        ELSE EvLR(C, ri, x, inv)
 
-Alts(C, ri) == LET b == C.G.nodes[C.G.rules[ri]] IN IF b.k = "choice" THEN b.kids ELSE <<C.G.rules[ri]>>
+(* The iterative meaning of a rule  A <- A a1 / .. / A an / b1 / .. / bm  (C08), also when the recursion passes  *)
+(* through one other rule: the base is what the rule matches when its own recursive reference fails, and each    *)
+(* growth step evaluates the rule once more with the recursive reference bound to the result so far; the value   *)
+(* is left-nested.  The final attempt that does not extend the match leaves no errors and no state changes.      *)
 EvLR(C, ri, x, inv) ==
-  LET alts == Alts(C, ri)
-      k    == C.G.lr[ri]
-      rn   == C.G.names[ri]
+  LET rn   == C.G.names[ri]
       hz   == IF <<ri, x.pos>> \in x.done THEN {"lrrepeat"} ELSE {}
       xs   == [x EXCEPT !.seeds = Append(@, [rule |-> ri, pos |-> x.pos, ok |-> FALSE, val |-> Nil, end |-> x.pos]),
-                        !.done = @ \cup {<<ri, x.pos>>}, !.haz = @ \cup hz, !.cnt = @ + 1]
-      r0   == EvCh(C, SubSeq(alts, k+1, Len(alts)), 1, xs, inv, rn, xs)
+                        !.done = @ \cup {<<ri, x.pos>>}, !.haz = @ \cup hz]
+      r0   == Ev(C, C.G.rules[ri], xs, inv, rn)
   IN IF Ab(r0.x) THEN r0
      ELSE IF ~r0.ok THEN Res(FALSE, Nil, [r0.x EXCEPT !.errs = x.errs, !.seeds = x.seeds])  \* outright failure: nothing retained
-     ELSE Grow(C, ri, x, r0, inv, SubSeq(alts, 1, k))
-Grow(C, ri, x, seed, inv, recs) ==
+     ELSE Grow(C, ri, x, r0, inv, 0)
+Grow(C, ri, x, seed, inv, n) ==
   LET rn == C.G.names[ri]
       xs == [seed.x EXCEPT !.pos = x.pos, !.env = <<>>,
                            !.seeds = Append(x.seeds, [rule |-> ri, pos |-> x.pos, ok |-> TRUE, val |-> seed.val, end |-> seed.x.pos])]
-      r  == EvCh(C, recs, 1, xs, inv, rn, xs) IN
+      r  == Ev(C, C.G.rules[ri], xs, inv, rn) IN
   IF Ab(r.x) THEN r
-  ELSE IF r.ok /\ r.x.pos > seed.x.pos THEN Grow(C, ri, x, r, inv, recs)
+  ELSE IF r.ok /\ r.x.pos > seed.x.pos THEN Grow(C, ri, x, r, inv, n + 1)
   ELSE \* the final, non-extending attempt: its events happened, its errors and state changes are not retained
        Res(TRUE, seed.val, [r.x EXCEPT !.pos = seed.x.pos, !.env = x.env, !.store = seed.x.store,
                                        !.errs = seed.x.errs, !.seeds = x.seeds])
@@ -310,6 +311,21 @@ Enc(v) == CASE v[1] = "n" -> <<0>>
             [] v[1] = "b" -> <<1, Len(v[2])>> \o v[2]
             [] v[1] = "l" -> <<2, Len(v[2])>> \o EncAll(v[2], 1)
             [] v[1] = "a" -> <<3, v[2], Len(v[3])>> \o EncAll(v[3], 1)
+
+(* the regrouping-insensitive encoding of C09: structural lists flattened, nil contributes nothing, *)
+(* adjacent byte strings concatenated, action values opaque and in place                          *)
+RECURSIVE NormW(_,_), NormList(_,_,_), NormArgs(_,_,_)
+Flush(w) == IF w.run = <<>> THEN w.out ELSE w.out \o <<1, Len(w.run)>> \o w.run
+NormW(v, w) ==        \* w = [out, run]
+  CASE v[1] = "n" -> w
+    [] v[1] = "b" -> [w EXCEPT !.run = @ \o v[2]]
+    [] v[1] = "l" -> NormList(v[2], 1, w)
+    [] v[1] = "a" -> LET sub == NormArgs(v[3], 1, <<>>) IN
+                     [out |-> Flush(w) \o <<3, v[2], Len(sub)>> \o sub, run |-> <<>>]
+NormList(vs, i, w) == IF i > Len(vs) THEN w ELSE NormList(vs, i+1, NormW(vs[i], w))
+NormArgs(vs, i, acc) == IF i > Len(vs) THEN acc
+                        ELSE NormArgs(vs, i+1, acc \o Flush(NormW(vs[i], [out |-> <<>>, run |-> <<>>])) \o <<4>>)
+NormEnc(v) == Flush(NormW(v, [out |-> <<>>, run |-> <<>>]))
 
 RECURSIVE Dedupe(_,_,_)
 Dedupe(es, i, acc) ==
@@ -340,9 +356,12 @@ RefOutcome(C) ==
   IN [ab |-> x.ab, ok |-> ok,
       end |-> IF ok THEN x.pos ELSE 0,
       val |-> IF ok THEN Enc(r.val) ELSE <<>>,
+      nval |-> IF ok THEN NormEnc(r.val) ELSE <<>>,
       store |-> IF ok THEN StoreSnap(x.store) ELSE <<>>,
       g |-> x.g,
-      events |-> [i \in 1..Len(x.log) |-> [x.log[i] EXCEPT !.args = Enc(@)]],
+      events |-> [i \in 1..Len(x.log) |-> [blk |-> x.log[i].blk, kind |-> x.log[i].kind, pos |-> x.log[i].pos, text |-> x.log[i].text,
+                                            args |-> Enc(x.log[i].args), nargs |-> NormEnc(x.log[i].args),
+                                            store |-> x.log[i].store, g |-> x.log[i].g]],
       errs |-> errs,
       nomatch |-> (~ok) /\ errs = <<>>,
       npos |-> LineCol(C.inp, x.fmax),
